@@ -827,7 +827,8 @@ func readOpCode(tr *tokenReader) (uint32, error) {
 }
 
 func readBlockComment(tr *tokenReader, tk token) string {
-	return string(tk.concrete[2 : len(tk.concrete)-2])
+	// line ends inside a comment are not part of its text under CRLF
+	return strings.ReplaceAll(string(tk.concrete[2:len(tk.concrete)-2]), "\r\n", "\n")
 }
 
 func sanitizeComment(tk token) string {
